@@ -17,7 +17,7 @@ pub fn prop() -> Prop {
             "the font table is extracted from /repo/src/mono_font/generated at build time",
         ],
         subs: vec![
-            Sub::tape("primitives", 40, 240_000, 12_000_000, |d, cx| run(d, cx, 0)),
+            Sub::tape("primitives", 40, 240_000, 12_000_000, |d, cx| run(d, cx, 0)).with_fp(),
             Sub::tape("primitives_large", 40, 2_000, 100_000, |d, cx| run(d, cx, 4)),
             Sub::tape("polylines", 40, 50_000, 2_500_000, |d, cx| run(d, cx, 1)),
             Sub::tape("images", 120, 30_000, 1_500_000, |d, cx| run(d, cx, 2)),
